@@ -440,6 +440,25 @@ theorem WFOut.crash {st : St} {s : List Char} (hst : StOK st) : WFOut (.crash s,
 theorem WFOut.outOfFuel {st : St} (hst : StOK st) : WFOut (.outOfFuel, st) :=
   ⟨hst, fun _ h => (by cases h), fun _ h => (by cases h)⟩
 
+/-- `(input-file *stdin*)`, time-outs and debugger commands included -/
+theorem wf_inputStdin (n : Nat) {st : St} (hst : StOK st) : WFOut (inputStdin n st) := by
+  refine inputStdin_induction (fun st o => StOK st → WFOut o) ?_ ?_ ?_ n st hst
+  · intro st hst
+    have hrl := hst.readLine
+    unfold readLineOutcome
+    split
+    all_goals
+      rename_i heq
+      rw [heq] at hrl
+    · exact WFOut.ok hrl (by simp)
+    · exact WFOut.err hrl (by simp)
+    · exact WFOut.err hrl (by simp)
+  · rintro st r after rest (rfl | rfl) hst
+    · exact WFOut.err (hst.of_eq rfl rfl) (by simp)
+    · exact WFOut.err (hst.of_eq rfl rfl) rfl
+  · intro st chunks inbox o h hst
+    exact h (hst.of_eq rfl rfl)
+
 section combinators
 variable {src : Name} {args : List Val} {st : St}
 
@@ -812,14 +831,7 @@ theorem simpleNative_wf (id : NativeId) (args : List Val) (d : Nat) (st : St)
   case inputFile =>
     refine wf_arity1 hst hargs fun src hsrc => ?_
     split
-    · have hrl := hst.readLine
-      split
-      all_goals
-        rename_i heq
-        rw [heq] at hrl
-      · exact WFOut.ok hrl (by simp)
-      · exact WFOut.err hrl (by simp)
-      · exact WFOut.err hrl (by simp)
+    · exact wf_inputStdin _ hst
     · split
       · exact WFOut.err hst (by simp)
       · exact WFOut.err hst (by simp)
@@ -896,6 +908,7 @@ theorem simpleNative_noCrash (id : NativeId) (args : List Val) (d : Nat) (st : S
     | exact exportLoop_noCrash _ _ _
     | exact (readNative_noCrash _ _ _).1
     | exact (printNative_noCrash _ _ _).1
+    | exact inputStdin_noCrash _ _ _
     | exact absurd ‹_ = none› (define_stored_some (hargs _ (by simp)))
 
 end Pici
